@@ -144,7 +144,10 @@ func judge(c Case) vdrv.Verdict {
 	}
 	v := vdrv.Fail(fmt.Sprintf("lowered program (target=%s unsupported=%v supported=%v minify=%v) behaves differently", c.Target, c.Unsupported, c.Supported, c.Minify), ref.Trace(), got.Trace()+"\n--- output\n"+out)
 	switch {
-	case c.lowers("object-rest-spread", 2018) && hasComplexObjectRest(c.Code):
+	case c.lowers("object-rest-spread", 2018) && hasComplexObjectRest(c.Code) && strings.Contains(ref.Trace(), "err:TypeError"):
+		// both listed deviations show as a TypeError that native destructuring throws (rest of null/undefined)
+		// or throws earlier (before a computed key is evaluated); without one in the native trace the
+		// failure is something else and is reported
 		v.Known = "C05-objrest-nullish-or-order"
 	case (c.lowers("class-field", 2022) || c.lowers("class-private-field", 2022)) && hasCtorParamEffectsAndFields(c.Code):
 		v.Known = "C05-field-init-before-ctor-params"
